@@ -65,7 +65,8 @@ REQUIRED_MONITORS = ["pairs-computed-exactly-once", "operands-are-the-pair", "sl
 REQUIRED_REACH = ["two-workers-alive-at-once", "empty-chunk:more-threads-than-pairs",
                   "kernels-of-different-workers-interleaved", "enumeration-exhaustive", "enumeration-sampled",
                   "store-gate-used", "yield-injected", "rectangular-local-block", "complex-dtype",
-                  "schedule-realised", "nthreads=1", "nthreads=pairs+2"]
+                  "schedule-realised", "nthreads=1", "nthreads=pairs+2", "workers-spawned:decorator",
+                  "workers-spawned:numpy-int"]
 
 
 # --------------------------------------------------------------------------- integrands
@@ -174,6 +175,8 @@ LARGE = [  # sampled schedules and free-running stress
     ("hex", "ElementHex1()", None, "cell"),                            # 8 x 8
     ("wedge", "ElementWedge1()", None, "cell"),                        # 6 x 6
     ("tri", "ElementTriMini()", "ElementTriP1()", "cell"),             # 4 x 3
+    ("tri", "ElementTriP1()", "ElementTriP0()", "interior"),           # trial on side 0, test on side 1: 3 x 1
+    ("quad", "ElementQuad1()", "ElementQuad1()", "interior"),          # 4 x 4 across interior facets
 ]
 FORMS_REAL = ["convect", "mass-x", "h-weighted", "params"]
 
@@ -224,10 +227,15 @@ def build_config(rng, spec, size, formname=None, dtype=None):
     ue = _elem(uexpr)
     if bkind == "cell":
         ub = skfem.CellBasis(mesh, ue) if elements is None else skfem.CellBasis(mesh, ue, elements=elements)
-    else:
+    elif bkind == "facet":
         ub = skfem.FacetBasis(mesh, ue)
+    else:
+        ub = skfem.InteriorFacetBasis(mesh, ue, side=0)
     if vexpr is None:
         vb, vb_arg = ub, None
+    elif bkind == "interior":
+        vb = skfem.InteriorFacetBasis(mesh, _elem(vexpr), side=1, quadrature=ub.quadrature)
+        vb_arg = vb
     else:
         vb = ub.with_element(_elem(vexpr))
         vb_arg = vb
@@ -237,7 +245,7 @@ def build_config(rng, spec, size, formname=None, dtype=None):
         if np.dtype(dtype).kind == "c":
             formname = "complex"
         else:
-            pool = list(FORMS_REAL) + (["facet-normal"] if bkind == "facet" else [])
+            pool = list(FORMS_REAL) + (["facet-normal"] if bkind != "cell" else [])
             formname = pool[int(rng.integers(len(pool)))]
     if formname == "complex" and np.dtype(dtype).kind != "c":
         dtype = np.complex128
@@ -314,13 +322,19 @@ def serial_reference(cfg):
 
 
 # --------------------------------------------------------------------------- one run + oracle
-def run_once(ctx, cfg, ref, nthreads, mode="free", schedule=None, fine=False, fp2w=None):
+def run_once(ctx, cfg, ref, nthreads, mode="free", schedule=None, fine=False, fp2w=None, spelling="plain"):
     import skfem
     h = H.Harness(cfg.ub, cfg.vb, cfg.raw, mode=mode, schedule=schedule, fine=fine, first_pair_to_worker=fp2w,
                   step_timeout=ctx.scale(20.0, 40.0), total_timeout=ctx.scale(40.0, 90.0))
     if not h.ids_unique:
         raise Skip("basis-objects-not-distinct")
-    inst = skfem.BilinearForm(h.wrap_form(), dtype=cfg.dtype, nthreads=nthreads)
+    if spelling == "decorator":
+        # `@BilinearForm(nthreads=k)`: Form.__call__ builds the real form object and must carry nthreads over
+        inst = skfem.BilinearForm(dtype=cfg.dtype, nthreads=nthreads)(h.wrap_form())
+    elif spelling == "numpy-int":
+        inst = skfem.BilinearForm(h.wrap_form(), dtype=cfg.dtype, nthreads=np.int64(nthreads))
+    else:
+        inst = skfem.BilinearForm(h.wrap_form(), dtype=cfg.dtype, nthreads=nthreads)
     h.instrument(inst)
     A = h.run(inst, cfg.vb_arg, dict(cfg.kwargs))
     if h.watchdog:
@@ -335,11 +349,14 @@ def _bytes_equal(a, b):
     return a.shape == b.shape and a.dtype == b.dtype and a.tobytes() == b.tobytes()
 
 
-def evaluate(ctx, cfg, ref, h, A, nthreads, gran, how):
+def evaluate(ctx, cfg, ref, h, A, nthreads, gran, how, sched=None):
     """Apply the ownership model to one finished run.  Returns the order hash."""
     log = h.log
     Nu, Nv, nt = cfg.Nu, cfg.Nv, cfg.nt
     tag = {"config": cfg.desc, "nthreads": int(nthreads), "granularity": gran, "how": how}
+    if sched is not None:
+        tag["schedule_worker_indices"] = "".join(str(w) if w < 10 else "(%d)" % w for w in sched)
+        tag["worker_first_pairs"] = {str(w): p for p, w in (h.first_pair_to_worker or {}).items()}
     allpairs = {(i, j) for j in range(Nu) for i in range(Nv)}
 
     # ---- worker exceptions
@@ -401,13 +418,12 @@ def evaluate(ctx, cfg, ref, h, A, nthreads, gran, how):
                 e = exits.get((tk, p))
                 if (e is None or e > s) and not_owner is None:
                     others = sorted({t2 for (t2, p2) in exits if p2 == p and t2 != tk})
-                    last = per_thread.get(tk, [None])
                     done_before = [p2 for (t2, p2), es in exits.items() if t2 == tk and es < s]
                     not_owner = {"slot_block": int(b), "belongs_to_pair": p, "written_by": int(tk),
                                  "pair_computed_by": others, "writer_computed_so_far": done_before[-4:],
                                  "transposed": (p[1], p[0]) in done_before and p[0] != p[1],
                                  "computed_later_by_writer": e is not None}
-            if bad_value is None and not _bytes_equal(back, ref.data[inb]) :
+            if bad_value is None and not _bytes_equal(back, ref.data[inb]):
                 other = None
                 for b2 in range(cfg.npairs):
                     if back.size == nt and _bytes_equal(back, ref.data[b2 * nt:(b2 + 1) * nt]):
@@ -419,43 +435,42 @@ def evaluate(ctx, cfg, ref, h, A, nthreads, gran, how):
         unwritten = int((count == 0).sum())
         rewritten = int((count > 1).sum())
         rewritten_by_other = overlap is not None
-        if unwritten and h.assemble_out is not None and _bytes_equal(h.assemble_out[1], ref.data) \
-                and ref.data[count == 0].any():
+        observable = not (unwritten and h.assemble_out is not None and _bytes_equal(h.assemble_out[1], ref.data)
+                          and ref.data[count == 0].any())
+        if not observable:
             # the result holds the right non-zero values in slots for which the logging view saw no store: the
             # code wrote through a path the view cannot see (np.copyto, out=, a reshaped view).  Not observable
-            # is not a violation: drop the slot accounting of this run (a required monitor with zero
-            # evaluations makes the whole check inconclusive).
+            # is not a violation: the store accounting of this run is dropped (required monitors with zero
+            # evaluations make the whole check inconclusive).
             ctx.drop("stores-not-observable-through-logging-view")
-            unwritten = None
-
-        def mech_slots():
-            if unwritten and not rewritten:
-                return "slot-never-written"
-            if rewritten and not unwritten:
-                return "slot-written-more-than-once" if rewritten_by_other else \
-                    "slot-written-more-than-once-by-its-own-thread"
-            return "slots-unwritten-and-rewritten"
-        if unwritten is not None:
+        else:
+            def mech_slots():
+                if unwritten and not rewritten:
+                    return "slot-never-written"
+                if rewritten and not unwritten:
+                    return "slot-written-more-than-once" if rewritten_by_other else \
+                        "slot-written-more-than-once-by-its-own-thread"
+                return "slots-unwritten-and-rewritten"
             ctx.check("slots-written-exactly-once", unwritten == 0 and rewritten == 0, mech=mech_slots,
                       unwritten_slots=unwritten, rewritten_slots=rewritten,
                       first_unwritten_pair=lambda: ref.pair_of_block[int(np.flatnonzero(count == 0)[0] // nt)]
                       if unwritten else None, **tag)
-        ctx.check("writes-disjoint-across-workers", overlap is None, mech="overlapping-writes-by-different-workers",
-                  first=overlap, **tag)
+            ctx.check("writes-disjoint-across-workers", overlap is None,
+                      mech="overlapping-writes-by-different-workers", first=overlap, **tag)
 
-        def mech_owner():
-            if not_owner["transposed"]:
-                return "pair-stored-in-transposed-slot"
-            if not_owner["computed_later_by_writer"]:
-                return "slot-stored-before-its-pair-was-computed"
-            return "slot-written-by-thread-that-did-not-compute-it"
-        ctx.check("writer-computed-the-pair", not_owner is None, mech=mech_owner, first=not_owner, **tag)
+            def mech_owner():
+                if not_owner["transposed"]:
+                    return "pair-stored-in-transposed-slot"
+                if not_owner["computed_later_by_writer"]:
+                    return "slot-stored-before-its-pair-was-computed"
+                return "slot-written-by-thread-that-did-not-compute-it"
+            ctx.check("writer-computed-the-pair", not_owner is None, mech=mech_owner, first=not_owner, **tag)
 
-        def mech_value():
-            if bad_value["value_is_serial_value_of_pair"] is not None:
-                return "stored-value-belongs-to-another-pair"
-            return "stored-value-differs-from-serial"
-        ctx.check("stored-value-equals-serial", bad_value is None, mech=mech_value, first=bad_value, **tag)
+            def mech_value():
+                if bad_value["value_is_serial_value_of_pair"] is not None:
+                    return "stored-value-belongs-to-another-pair"
+                return "stored-value-differs-from-serial"
+            ctx.check("stored-value-equals-serial", bad_value is None, mech=mech_value, first=bad_value, **tag)
 
     # ---- result bitwise equal to serial
     out = h.assemble_out
@@ -580,7 +595,7 @@ def controlled(ctx, cfg, ref, nthreads, fine, nsample, rng, limit=ENUM_LIMIT):
     for sched in scheds:
         h, A = run_once(ctx, cfg, ref, nthreads, mode="controlled", schedule=sched, fine=fine, fp2w=fp2w)
         nrun += 1
-        oh = evaluate(ctx, cfg, ref, h, A, nthreads, gran, "controlled")
+        oh = evaluate(ctx, cfg, ref, h, A, nthreads, gran, "controlled", sched=sched)
         got = tuple(h.widx_of.get(tk) for tk, a, b in h.kernel_order())
         if h.abort or got != tuple(sched):
             # the run is still a valid execution (judged above); it just is not the prescribed one
@@ -684,10 +699,14 @@ def fam_sweep(ctx, k):
     ref = serial_reference(cfg)
     n = cfg.npairs
     ths = list(range(1, n + 3)) if n <= 16 else sorted({1, 2, 3, 4, 7, 8, n // 2, n - 1, n, n + 1, n + 2})
+    ths.append(2 * n + 5)   # "any positive number": far more threads than pairs
     hashes = set()
-    for nth in ths:
-        h, A = run_once(ctx, cfg, ref, nth, mode="free")
-        hashes.add((nth, evaluate(ctx, cfg, ref, h, A, nth, "kernel", "free")))
+    for x, nth in enumerate(ths):
+        spelling = ("plain", "decorator", "numpy-int")[(x + k) % 3]
+        h, A = run_once(ctx, cfg, ref, nth, mode="free", spelling=spelling)
+        hashes.add((nth, evaluate(ctx, cfg, ref, h, A, nth, "kernel", "free:" + spelling)))
+        if h.worker_tks:
+            ctx.reached("workers-spawned:" + spelling)
     ctx.reached("interleavings-distinct:free", len(hashes))
     ctx.sample({"config": cfg.desc, "thread_counts": ths, "distinct_orders": len(hashes)}, per_family=2)
 
@@ -743,8 +762,8 @@ FAMILIES = [
            budget={"quick": 40, "thorough": 500}),
     Family("enum-fine", _enum_fine, quick=47, thorough=lambda ctx: len(enum_table()) + 100,
            budget={"quick": 40, "thorough": 500}),
-    Family("sampled-large", fam_sampled, quick=20, thorough=640, budget={"quick": 30, "thorough": 420}),
-    Family("sweep-threadcounts", fam_sweep, quick=32, thorough=640, budget={"quick": 30, "thorough": 420}),
+    Family("sampled-large", fam_sampled, quick=24, thorough=660, budget={"quick": 30, "thorough": 420}),
+    Family("sweep-threadcounts", fam_sweep, quick=36, thorough=680, budget={"quick": 30, "thorough": 420}),
     Family("stress-yield", fam_stress, quick=16, thorough=480, budget={"quick": 30, "thorough": 420}),
 ]
 
